@@ -96,9 +96,16 @@ def run(tier, seed, rep):
         peaks = [{"m8": m, "inten": it} for m, it in zip(obs8, inten)]
         rnd.shuffle(peaks)
 
+        # the parent is written as a plain string, with a charge suffix, an ambiguity group, decorations, or given as an
+        # annotation object: n residues in every case
+        parent = rnd.choice(["A" * n, "A" * n, "A" * n + "/2", "(?AA)" + "A" * (n - 2), "[Acetyl]-" + "A" * n,
+                             "A" * (n - 1) + "A[+1.5]", "<13C>" + "A" * n, "{Glycan:Hex}" + "A" * n + "/3", "obj"])
+        if parent == "obj":
+            parent = pp.parse("A" * n + "/2")
+
         def mk():
             return [Fragment(charge=f["z"], ion_type="b", start=0, end=f["id"], monoisotopic=True, isotope=0, loss=0.0,
-                             parent_sequence="A" * n, mass=f["t8"] / 8.0 * f["z"], neutral_mass=f["t8"] / 8.0 * f["z"],
+                             parent_sequence=parent, mass=f["t8"] / 8.0 * f["z"], neutral_mass=f["t8"] / 8.0 * f["z"],
                              mz=f["t8"] / 8.0,
                              sequence="A" * f["id"], unmod_sequence="A" * f["id"], internal=False) for f in frs]
         base = {"k": "c17", "tt": tt, "tol": tol, "frags": frs, "peaks": peaks}
